@@ -10,6 +10,69 @@ func init() {
 	acts["aka_set"] = actAkaSet
 	acts["aka_mac"] = actAkaMac
 	acts["aka_prf"] = actAkaPrf
+	acts["aka_new"] = actAkaNew
+	acts["aka_setattr"] = actAkaSetAttr
+	acts["aka_marshal"] = actAkaMarshal
+	acts["aka_calcmac"] = actAkaCalcMac
+}
+
+// ---- one long-lived EAP-AKA' packet object (AkaObject in Gen_AkaHist.tla): histories of setter / encoder / MAC calls
+
+func akaObj(e *Env) *eap.EAP {
+	p, _ := e.objs["akaobj"].(*eap.EAP)
+	return p
+}
+
+func akaState(p *eap.EAP) []any {
+	attrs, _ := projEap(p)["attrs"].([]any)
+	if attrs == nil {
+		attrs = []any{}
+	}
+	return attrs
+}
+
+func actAkaNew(e *Env, a J) J {
+	p := &eap.EAP{Code: eap.EapCode(gi(a, "code")), Identifier: uint8(gi(a, "id")), EapTypeData: eap.NewEapAkaPrime(eap.EapAkaSubtype(gi(a, "sub")))}
+	e.objs["akaobj"] = p
+	return J{"attrs": akaState(p)}
+}
+
+func actAkaSetAttr(e *Env, a J) J {
+	p := akaObj(e)
+	if p == nil {
+		return J{"infra": "aka_setattr: no object"}
+	}
+	err := p.EapTypeData.(*eap.EapAkaPrime).SetAttr(eap.EapAkaPrimeAttrType(gi(a, "t")), gox(a, "v"))
+	o := errObs(err)
+	o["attrs"] = akaState(p)
+	return o
+}
+
+func actAkaMarshal(e *Env, a J) J {
+	p := akaObj(e)
+	if p == nil {
+		return J{"infra": "aka_marshal: no object"}
+	}
+	b, err := p.Marshal()
+	o := errObs(err)
+	if err == nil {
+		o["wire"] = octOf(b)
+	}
+	o["attrs"] = akaState(p)
+	return o
+}
+
+func actAkaCalcMac(e *Env, a J) J {
+	p := akaObj(e)
+	if p == nil {
+		return J{"infra": "aka_calcmac: no object"}
+	}
+	mac, err := p.CalcEapAkaPrimeAtMAC(gox(a, "key"))
+	o := errObs(err)
+	if err == nil {
+		o["mac"] = octOf(mac)
+	}
+	return o
 }
 
 // aka_set: SetAttr on a fresh EAP-AKA' value, then read the attribute back
@@ -73,8 +136,12 @@ func actAkaMac(e *Env, a J) J {
 	if err == nil {
 		o["mac"] = octOf(mac)
 		// computing it again gives the same value (independent of the AT_MAC value the first computation left behind)
+		first := octOf(mac)
 		mac2, err2 := p.CalcEapAkaPrimeAtMAC(gox(a, "key"))
-		o["again"] = err2 == nil && string(mac2) == string(mac)
+		o["again"] = err2 == nil && string(mac2) == string(first)
+		// a code that was returned stays what it was when the packet computes another one (under another key)
+		_, _ = p.CalcEapAkaPrimeAtMAC(fillPattern("seeded", 32, 123))
+		o["stable"] = string(mac) == string(first)
 	}
 	return o
 }
